@@ -675,12 +675,12 @@ func checkClientConn(key string, svc ServiceSpec, scripts map[int]Script, cs Cli
 		// reply attempts: refused ones returned an error, accepted ones did not
 		for _, e := range evs {
 			if e.kind != "h.act" {
-				return out
+				continue
 			}
 			var a hAct
 			json.Unmarshal([]byte(e.data), &a)
 			if a.Op == "rawwrite" {
-				return out
+				continue
 			}
 			if contains(cm.Refused[a.Cid], a.I) && a.Err != "err" {
 				out = append(out, vio("refusal", "refused-attempt-accepted", "%s cid=%d action %d (%s): must be refused, handler got nil", key, a.Cid, a.I, a.Op))
